@@ -351,7 +351,10 @@ def run_one_path(ex, world, fn, c):
     else:
         post_env["result"] = result
     for h in c.hints:
-        ex.eval_clause(h, pfr, hint=True)
+        try:
+            ex.eval_clause(h, pfr, hint=True)
+        except (VCError, _Raise):
+            pass  # a hint that does not apply on this path (e.g. names a local the path never bound)
     for i, e in enumerate(c.ensures):
         nm = c.ensures_names[i] if c.ensures_names else str(i)
         ex.oblige("post", ex.eval_clause(e, pfr), fn.node, tag=f"#{nm}")
